@@ -16,8 +16,9 @@ MODE_VALUES = ["ModeA", "ModeB", "ModeC"]          # 0,1,2
 OPT_VALUES = [("OptA", 1), ("OptB", 2), ("OptC", 4)]
 
 
-def P(name, ty, notify=None, layer=None, constant=False, write=True, emits=True):
-    return {"name": name, "type": ty, "notify": notify, "layer": layer, "constant": constant, "write": write, "emits": emits}
+def P(name, ty, notify=None, layer=None, constant=False, write=True, emits=True, read_fn=None, write_fn=None, default=None):
+    return {"name": name, "type": ty, "notify": notify, "layer": layer, "constant": constant, "write": write, "emits": emits,
+            "read_fn": read_fn or name, "write_fn": (write_fn or ("set" + name[0].upper() + name[1:])) if write else None, "default": default}
 
 
 def cap(s):
@@ -94,6 +95,92 @@ CLASSES = [
 
 BY_NAME = {c["name"]: c for c in CLASSES}
 
+# ---------------------------------------------------------------- real Qt classes, taken from the working tree's metatypes
+
+REAL_WHITELIST = ["QAbstractButton", "QCheckBox", "QPushButton", "QLineEdit", "QAbstractSpinBox", "QSpinBox", "QDoubleSpinBox",
+                  "QAbstractSlider", "QSlider", "QLabel", "QProgressBar"]
+REAL_SUPER = {"QLabel": "QWidget"}        # QFrame is skipped in the stubs
+# C++ truth the metatypes cannot express: which same-named entries are default-argument clones of ONE function.
+# Every other same-named set is a set of true overloads.
+REAL_CLONE_CHAINS = {("QAbstractButton", "clicked"): [("bool", "checked", "false")]}
+REAL_DEFAULTS = {"maximum": {"int": 99, "double": 99.0}, "singleStep": {"int": 1, "double": 1.0}, "pageStep": {"int": 10}, "decimals": {"int": 2},
+                 "tracking": {"bool": True}, "frame": {"bool": True}, "keyboardTracking": {"bool": True}, "textVisible": {"bool": True},
+                 "maxLength": {"int": 32767}, "autoRepeatDelay": {"int": 300}, "autoRepeatInterval": {"int": 100}, "displayIntegerBase": {"int": 10}}
+NOT_A_SOURCE = {"sliderPosition", "cursorPosition"}   # notify signals of these are used as plain signals
+REAL_SLOT_EFFECTS_CXX = {
+    ("QLineEdit", "clear"): 'setText(QString());',
+    ("QAbstractButton", "toggle"): "setChecked(!isChecked());",
+    ("QAbstractSpinBox", "stepUp"): "simStep(1);",
+    ("QAbstractSpinBox", "stepDown"): "simStep(-1);",
+    ("QProgressBar", "reset"): "setValue(minimum());",
+}
+REAL_LOADED = {"dir": None}
+SIMPLE_TYPES = {"bool": BOOL, "int": INT, "double": REAL, "QString": STR}
+
+
+def load_real(metatypes_dir):
+    """append the whitelisted real classes, read from the metatypes JSON of the working tree (idempotent)"""
+    import os
+    if REAL_LOADED["dir"] == metatypes_dir:
+        return
+    if REAL_LOADED["dir"] is not None:
+        del CLASSES[3:]
+    raw = {}
+    for fn in sorted(os.listdir(metatypes_dir)):
+        if fn.endswith(".json"):
+            for u in json.load(open(os.path.join(metatypes_dir, fn), encoding="utf-8")):
+                for c in u.get("classes", []):
+                    raw[c["className"]] = c
+    for n in REAL_WHITELIST:
+        c = raw.get(n)
+        if c is None:
+            continue
+        props = []
+        sigs_by_name = {}
+        for s in c.get("signals", []):
+            ats = [a["type"] for a in s.get("arguments", [])]
+            if all(t in SIMPLE_TYPES for t in ats):
+                sigs_by_name.setdefault(s["name"], []).append(ats)
+        for p in c.get("properties", []):
+            if p["type"] not in SIMPLE_TYPES:
+                continue
+            notify = None
+            if p.get("notify") and p["name"] not in NOT_A_SOURCE:
+                ents = sigs_by_name.get(p["notify"], [])
+                if [p["type"]] in ents:
+                    notify = (p["notify"], [p["type"]])
+                elif [] in ents:
+                    notify = (p["notify"], [])
+            layer = 0 if (notify and p.get("write")) else (2 if p.get("write") else None)
+            d = REAL_DEFAULTS.get(p["name"], {}).get(p["type"])
+            props.append(P(p["name"], p["type"], notify, layer, constant=bool(p.get("constant")), write=bool(p.get("write")),
+                           read_fn=p.get("read"), write_fn=p.get("write"), default=d))
+        signals = []
+        notify_names = set(p["notify"][0] for p in props if p["notify"])
+        for name, ents in sorted(sigs_by_name.items()):
+            chain = REAL_CLONE_CHAINS.get((n, name))
+            if chain:
+                signals.append({"name": name, "args": [(t, a, dflt) for t, a, dflt in chain], "real": True})
+                continue
+            for ats in ents:
+                signals.append({"name": name, "args": [(t, "a%d" % i, None) for i, t in enumerate(ats)], "real": True,
+                                "notify_overload": name in notify_names})
+        slots = []
+        for s in c.get("slots", []):
+            if s.get("access") == "public" and (n, s["name"]) in REAL_SLOT_EFFECTS_CXX and not s.get("arguments"):
+                slots.append({"name": s["name"], "args": []})
+        sup = REAL_SUPER.get(n) or (c.get("superClasses") or [{"name": "QWidget"}])[0]["name"]
+        CLASSES.append({"name": n, "super": sup, "widget": True, "real": True, "props": props, "signals": signals, "slots": slots, "enums": [],
+                        "json_signal_entries": {k: v for k, v in sigs_by_name.items()}})
+    BY_NAME.clear()
+    BY_NAME.update({c["name"]: c for c in CLASSES})
+    SLOT_EFFECTS_CXX.update(REAL_SLOT_EFFECTS_CXX)
+    REAL_LOADED["dir"] = metatypes_dir
+
+
+def real_classes():
+    return [c for c in CLASSES if c.get("real")]
+
 
 def class_chain(name):
     out = []
@@ -122,6 +209,8 @@ def all_signals(cls):
     for c in class_chain(cls):
         for s in c["signals"]:
             res.append((c["name"], s))
+        if c.get("real"):
+            continue       # real classes list every signal entry, notify signals included
         for p in c["props"]:
             if p["notify"]:
                 res.append((c["name"], {"name": p["notify"][0], "args": [(t, "v", None) for t in p["notify"][1]], "notify_of": p["name"]}))
@@ -167,6 +256,8 @@ def signal_entries(sig):
 def metatypes_json():
     classes = []
     for c in CLASSES:
+        if c.get("real"):
+            continue     # real classes come from contrib/metatypes themselves
         props = []
         for p in c["props"]:
             d = {"constant": p["constant"], "designable": True, "final": False, "name": p["name"],
@@ -227,8 +318,37 @@ def cxx_default(t):
     return ""
 
 
+def default_value(p):
+    """initial value of a property in the stubs and in the reference model (Python value)"""
+    if p["default"] is not None:
+        return p["default"]
+    t = p["type"]
+    if p["name"] == "constVal":
+        return 77
+    return {INT: 0, UINT: 0, REAL: 0.0, BOOL: False, STR: "", STRLIST: (), MODE: 0, OPTS: 0, PW: None, PM: None}.get(t)
+
+
+def cxx_literal(p):
+    v = default_value(p)
+    t = p["type"]
+    if t == "QFont" or v is None and not t.endswith("*"):
+        return ""
+    if t == BOOL:
+        return "true" if v else "false"
+    if t in (INT, UINT):
+        return str(v)
+    if t == REAL:
+        return repr(float(v))
+    if t.endswith("*"):
+        return "nullptr"
+    if t == MODE:
+        return "SimWidget::ModeA"
+    return ""
+
+
 def cxx_stubs():
-    """C++ declarations generated from the same description as the metatypes JSON."""
+    """C++ declarations generated from the same description as the metatypes JSON (synthetic classes) or from the
+    metatypes JSON of the working tree itself (whitelisted real classes)."""
     L = ["// generated from sim/qtworld/simclasses.py - do not edit", "#pragma once", '#include "qtsim.h"', ""]
     for c in CLASSES:
         L.append("class %s;" % c["name"])
@@ -245,57 +365,68 @@ def cxx_stubs():
                 L.append("    typedef QFlags<%s> %s;" % (e["alias"], e["name"]))
             else:
                 L.append("    enum %s { %s };" % (e["name"], ", ".join(e["values"])))
+        if n == "QAbstractSpinBox":
+            L.append("    virtual void simStep(int) {}")
+        if n == "QSpinBox":
+            L.append("    void simStep(int d) override { setValue(value() + d * singleStep()); }")
+        if n == "QDoubleSpinBox":
+            L.append("    void simStep(int d) override { setValue(value() + d * singleStep()); }")
         for p in c["props"]:
             t = p["type"]
-            L.append("    %s %s() const { return %s_; }" % (t, p["name"], p["name"]))
+            L.append("    %s %s() const { return %s_; }" % (t, p["read_fn"], p["name"]))
             if p["write"]:
-                L.append("    void set%s(%sv)" % (cap(p["name"]), cxx_param(t)))
+                L.append("    void %s(%sv)" % (p["write_fn"], cxx_param(t)))
                 L.append("    {")
                 if p["notify"]:
                     L.append('        const bool changed = !(%s_ == v);' % p["name"])
                 L.append('        %s_ = v;' % p["name"])
                 L.append('        simTraceSet(this, "%s", simRepr(v));' % p["name"])
                 if p["notify"]:
-                    args = "v" if p["notify"][1] else ""
                     L.append('        if (changed || simAlwaysEmits("%s")) {' % p["name"])
-                    if p["name"] == "text":
+                    if c.get("real"):
+                        # a real setter emits every overload of its notify signal
+                        for o, sg in signal_overloads(n, p["notify"][0]):
+                            ats = [a[0] for a in sg["args"]]
+                            if ats == [t]:
+                                L.append("            Q_EMIT %s(v);" % sg["name"])
+                            elif ats == [STR] and t in (INT, REAL):
+                                L.append("            Q_EMIT %s(QString::number(v));" % sg["name"])
+                            elif ats == []:
+                                L.append("            Q_EMIT %s();" % sg["name"])
+                    elif p["name"] == "text":
                         L.append("            Q_EMIT textChanged(v);")
                         L.append("            Q_EMIT textChanged();")
                     else:
-                        L.append("            Q_EMIT %s(%s);" % (p["notify"][0], args))
+                        L.append("            Q_EMIT %s(%s);" % (p["notify"][0], "v" if p["notify"][1] else ""))
                     L.append("        }")
                 L.append("    }")
-        # signals
         L.append("    // signals")
-        for p in c["props"]:
-            if p["notify"]:
-                ats = list(p["notify"][1])
-                params = ", ".join("%sa%d" % (cxx_param(t), i) for i, t in enumerate(ats))
-                argl = "".join(", a%d" % i for i in range(len(ats)))
-                ptypes = ", ".join(cxx_param(t).strip() for t in ats)
-                L.append("    void %s(%s) { simEmit(this, static_cast<void (%s::*)(%s)>(&%s::%s)%s); }" % (p["notify"][0], params, n, ptypes, n, p["notify"][0], argl))
-        for s in c["signals"]:
-            params = ", ".join("%s%s%s" % (cxx_param(a[0]), a[1], (" = " + a[2]) if a[2] is not None else "") for a in s["args"])
-            argl = "".join(", " + a[1] for a in s["args"])
-            ptypes = ", ".join(cxx_param(a[0]).strip() for a in s["args"])
-            L.append("    void %s(%s) { simEmit(this, static_cast<void (%s::*)(%s)>(&%s::%s)%s); }" % (s["name"], params, n, ptypes, n, s["name"], argl))
-        # slots
+        if not c.get("real"):
+            for p in c["props"]:
+                if p["notify"]:
+                    ats = list(p["notify"][1])
+                    params = ", ".join("%sa%d" % (cxx_param(t), i) for i, t in enumerate(ats))
+                    argl = "".join(", a%d" % i for i in range(len(ats)))
+                    ptypes = ", ".join(cxx_param(t).strip() for t in ats)
+                    L.append("    void %s(%s) { simEmit(this, static_cast<void (%s::*)(%s)>(&%s::%s)%s); }" % (p["notify"][0], params, n, ptypes, n, p["notify"][0], argl))
+        for sg in c["signals"]:
+            params = ", ".join("%s%s%s" % (cxx_param(a[0]), a[1], (" = " + a[2]) if a[2] is not None else "") for a in sg["args"])
+            argl = "".join(", " + a[1] for a in sg["args"])
+            ptypes = ", ".join(cxx_param(a[0]).strip() for a in sg["args"])
+            L.append("    void %s(%s) { simEmit(this, static_cast<void (%s::*)(%s)>(&%s::%s)%s); }" % (sg["name"], params, n, ptypes, n, sg["name"], argl))
         L.append("    // slots")
-        for s in c["slots"]:
-            params = ", ".join("%s%s" % (cxx_param(a[0]), a[1]) for a in s["args"])
-            reprs = ", ".join("simRepr(%s)" % a[1] for a in s["args"])
-            L.append("    void %s(%s)" % (s["name"], params))
+        for sl in c["slots"]:
+            params = ", ".join("%s%s" % (cxx_param(a[0]), a[1]) for a in sl["args"])
+            reprs = ", ".join("simRepr(%s)" % a[1] for a in sl["args"])
+            L.append("    void %s(%s)" % (sl["name"], params))
             L.append("    {")
-            L.append('        simTraceCall(this, "%s", {%s});' % (s["name"], reprs))
-            L.append("        " + SLOT_EFFECTS_CXX.get((n, s["name"]), ""))
+            L.append('        simTraceCall(this, "%s", {%s});' % (sl["name"], reprs))
+            L.append("        " + SLOT_EFFECTS_CXX.get((n, sl["name"]), ""))
             L.append("    }")
         L.append("private:")
         for p in c["props"]:
-            t = p["type"]
-            d = cxx_default(p["type"])
-            if p["name"] == "constVal":
-                d = "77"
-            L.append("    %s %s_%s;" % (t, p["name"], (" = " + d) if d else ""))
+            d = cxx_literal(p)
+            L.append("    %s %s_%s;" % (p["type"], p["name"], (" = " + d) if d else ""))
         L.append("};")
         if n == "SimWidget":
             L.append("Q_DECLARE_OPERATORS_FOR_FLAGS(SimWidget::Options)")
@@ -325,7 +456,7 @@ def cxx_dispatch():
         for p in all_props(n):
             if not p["write"]:
                 continue
-            L.append('        if (prop == "%s") { x->set%s(%s); return true; }' % (p["name"], cap(p["name"]), conv_from_value(p["type"])))
+            L.append('        if (prop == "%s") { x->%s(%s); return true; }' % (p["name"], p["write_fn"], conv_from_value(p["type"])))
         L.append("    }")
     L.append("    return simSetBuiltinProperty(o, prop, v);")
     L.append("}")
@@ -336,7 +467,7 @@ def cxx_dispatch():
         n = c["name"]
         L.append("    if (auto *x = dynamic_cast<%s *>(o)) {" % n)
         for p in all_props(n):
-            L.append('        os << "state " << o->simName() << " %s " << simRepr(x->%s()) << "\\n";' % (p["name"], p["name"]))
+            L.append('        os << "state " << o->simName() << " %s " << simRepr(x->%s()) << "\\n";' % (p["name"], p["read_fn"]))
         L.append("        simDumpBuiltinProperties(o, os);")
         L.append("        return;")
         L.append("    }")
@@ -409,3 +540,8 @@ def conv_from_value(t, v="v"):
     if t == "QFont":
         return "%s.asFont()" % v
     raise ValueError(t)
+
+
+def signal_overloads(cls, name):
+    """all C++ signal functions called `name` visible in cls: [(owner, sig)]"""
+    return [(o, s) for o, s in all_signals(cls) if s["name"] == name]
